@@ -55,6 +55,12 @@ type SCase struct {
 	NoFwd bool    `json:"nofwd"`
 	VRFs  []int   `json:"vrfs"`
 	Steps []SStep `json:"steps"`
+	// Late: those of VRFs that are not configured when the server is built but created at run time
+	// (Server.AddNetworkInstance) just before step number LateAt is executed; nothing may refer to them earlier,
+	// so for the model they simply exist (whatever the server computed from the set of instances before - a Get or
+	// Flush of "all" - must not be remembered)
+	Late   []int `json:"late,omitempty"`
+	LateAt int   `json:"late_at,omitempty"`
 }
 
 // SObs is what one step produced.
@@ -210,6 +216,10 @@ type SRun struct {
 	D    *Server
 	Sess map[int]*Sess
 	rep  map[*Sess]bool
+
+	late   []int
+	lateAt int
+	nstep  int
 }
 
 // NewSRun starts a server for the case.
@@ -223,7 +233,13 @@ func NewSRunOpts(c SCase, noCheck bool) (*SRun, error) {
 	}
 	names := []string{}
 	for _, v := range c.VRFs {
-		names = append(names, NINames[v])
+		isLate := false
+		for _, l := range c.Late {
+			isLate = isLate || l == v
+		}
+		if !isLate {
+			names = append(names, NINames[v])
+		}
 	}
 	if len(names) > 0 {
 		opts = append(opts, server.WithVRFs(names))
@@ -235,12 +251,20 @@ func NewSRunOpts(c SCase, noCheck bool) (*SRun, error) {
 	if err != nil {
 		return nil, err
 	}
-	return &SRun{D: d, Sess: map[int]*Sess{}, rep: map[*Sess]bool{}}, nil
+	return &SRun{D: d, Sess: map[int]*Sess{}, rep: map[*Sess]bool{}, late: c.Late, lateAt: c.LateAt}, nil
 }
 
 // Step executes one step.
 func (x *SRun) Step(st SStep) SObs {
 	var o SObs
+	if x.nstep == x.lateAt {
+		for _, v := range x.late {
+			if err := x.D.S.AddNetworkInstance(NINames[v]); err != nil {
+				o.Hang = "AddNetworkInstance(" + NINames[v] + "): " + err.Error()
+			}
+		}
+	}
+	x.nstep++
 	s := x.Sess[st.S]
 	var rs []*spb.ModifyResponse
 	var err error
